@@ -216,65 +216,7 @@ def _check_case(ctx, r, variant):
             ctx.notes["second_opinion_examples"].append({"output": out[:400]})
 
 
-def _tags_with_paths(live, r, path=()):
-    out = [(live, r)]
-    kids = [c for c in live.children]
-    rk = gen.flat_children(r)
-    if len(kids) == len(rk):
-        for lc, rc in zip(kids, rk):
-            if isinstance(lc, ht.Tag) and rc["k"] == "tag":
-                out.extend(_tags_with_paths(lc, rc))
-    return out
-
-
-def mutate_pair(rng, live, r):
-    """Apply one public-API mutation to a live tag and mirror it on its recipe; returns a description."""
-    from ..ref.attrs import norm_name
-
-    t, tr = rng.choice(_tags_with_paths(live, r))
-    m = rng.choice(["pop", "del", "clear", "set_new", "append_text", "del_child", "remove_class", "rename"])
-    names = []
-    for n, v in tr["attrs"]:
-        if v["t"] not in ("none", "false") and norm_name(n) not in names:
-            names.append(norm_name(n))
-    if m in ("pop", "del") and names:
-        nm = rng.choice(names)
-        if m == "pop":
-            t.attrs.pop(nm)
-        else:
-            del t.attrs[nm]
-        tr["attrs"] = [[n, v] for n, v in tr["attrs"] if norm_name(n) != nm]
-    elif m == "clear":
-        t.attrs.clear()
-        tr["attrs"] = []
-    elif m == "remove_class" and "class" in names and all(v["t"] == "str" for n, v in tr["attrs"] if norm_name(n) == "class"):
-        # removing every token one by one ends with the attribute being dropped
-        for tok in list(dict.fromkeys(str(t.attrs.get("class", "")).split())):
-            t.remove_class(tok)
-        if "class" in t.attrs:
-            return None  # (tokens the helper cannot address; leave the recipe alone and skip)
-        tr["attrs"] = [[n, v] for n, v in tr["attrs"] if norm_name(n) != "class"]
-    elif m == "set_new":
-        t.attrs["data-mutated"] = "m<&>\""
-        tr["attrs"] = [[n, v] for n, v in tr["attrs"] if norm_name(n) != "data-mutated"] + [["data-mutated", {"t": "str", "s": "m<&>\""}]] \
-            if "data-mutated" not in names else tr["attrs"]
-        if "data-mutated" in names:
-            return None
-    elif m == "append_text":
-        t.append("added<&")
-        tr["c"] = gen.flat_children(tr) + [{"k": "text", "s": "added<&"}]
-    elif m == "del_child" and len(t.children) and len(t.children) == len(gen.flat_children(tr)):
-        i = rng.randrange(len(t.children))
-        del t.children[i]
-        kids = gen.flat_children(tr)
-        del kids[i]
-        tr["c"] = kids
-    elif m == "rename" and tr["name"] not in ("script", "style"):
-        t.name = "renamed-el"
-        tr["name"] = "renamed-el"
-    else:
-        return None
-    return m
+from ..mutate import mutate_pair  # noqa: E402
 
 
 def check_mutation_history(ctx, r):
